@@ -174,8 +174,29 @@ def oriented_sheet_map(ctx, g):
            "equal signs -> other sheet, different signs -> same sheet" if not bad else bad)
 
 
+def sheet_trace(ctx, g):
+    """covers::trace_word(table, start, word): the sheet reached from `start` by the word - a fold of table.get(row, letter) over the letters of
+    `word` in order, starting at `start`"""
+    b = ctx.body("covers::trace_word")
+    ctx.scan(ctx.facts.with_closures(b.name))
+    table, start, word = (("param", k, b.debug.get(k, "")) for k in (1, 2, 3))
+    r = strip(norm(b.local_origin(0), g))
+    bad = None
+    if not (is_call(r, "Iterator::fold") and strip(r[2][1]) == start and contains(r[2][0], lambda y: y == word) and not contains(r[2][0], lambda y: is_call(y, "Iterator::rev"))):
+        bad = "not word.iter().fold(start, ..): %s" % show(r, 1)[:70]
+    else:
+        st = apply_closure(ctx.facts, strip(r[2][2]), [("local", -1, "row"), ("local", -2, "g")], g)
+        st = strip(st) if st is not None else None
+        ok = st is not None and is_call(st, "Option::<T>::unwrap") and is_call(strip(st[2][0]), "CosetTable::get") and \
+            [strip(y) for y in strip(st[2][0])[2]] == [table, ("local", -1, "row"), ("local", -2, "g")]
+        if not ok:
+            bad = "a letter does not move the sheet by table.get(row, letter): %s" % (show(st, 1)[:60] if st else None)
+    ctx.ob("T2-sheet-map-traces-edge-word", b.name, "fold", "ok" if not bad else "violation", "the sheet reached is word.iter().fold(start, |row, g| table.get(row, g))" if not bad else bad)
+
+
 def run(ctx):
     g = ctx.facts.getters()
+    sheet_trace(ctx, g)
     cover_algebra(ctx, g)
     oriented_sheet_map(ctx, g)
     ctx.clauses += ["each cover is assembled from the base's operations and degrees (T9/T2)", "oriented cover: one sheet if oriented, two otherwise (T3/T4)"]
